@@ -51,45 +51,59 @@ Theorem C17_root_in_final_bracket : forall (f df : R -> R) x_tol r_tol n x0 b0 b
 Proof. exact root_in_final_bracket. Qed.
 
 (* result contract: the fuel max_iters always suffices; non-NaN <-> converged; NaN by "not bracketed" exactly when there is
-   neither a sign change nor an end-point root; end-point roots are returned untouched; the reported residual is f at the result *)
+   neither a sign change nor an end point with |f| <= r_tol (with r_tol = 0: an exact root) -- whatever f does with NaN (final
+   mask); end points and the clipped guess that already meet the residual tolerance are returned untouched (right end first);
+   with 0 <= r_tol an iterate with F = 0 stops the iteration, the 0/0 state is never reached; residual = f at the result.
+   Sign change: the code tests sign(fl)*sign(fh) < 0; over R this is fl*fh < 0 (L_C17.sign_test_R); that the two differ in
+   binary64 when the product underflows is covered by the correspondence streams with residual magnitudes 1e-200..1e-300. *)
 Theorem C17_never_out_of_fuel : forall (f df : R -> R) x_tol r_tol n x0 b0 b1,
   rtsafe f df x0 b0 b1 n x_tol r_tol <> OutOfFuel.
 Proof. exact never_out_of_fuel. Qed.
 Theorem C17_result_contract : forall (f df : R -> R) x_tol r_tol n x0 b0 b1 x cv it F dx w,
   rtsafe f df x0 b0 b1 n x_tol r_tol = Res x cv it F dx w ->
   (x <> None <-> cv = true) /\ (cv = true <-> w = Converged) /\
-  (w = NotBracketed <-> (~ (f b0 * f b1 < 0) /\ f b0 <> 0 /\ f b1 <> 0)) /\
-  (f b1 = 0 -> x = Some b1 /\ it = 0) /\
-  (f b0 = 0 -> f b1 <> 0 -> x = Some b0 /\ it = 0) /\
+  (w = NotBracketed <-> (~ (f b0 * f b1 < 0) /\ r_tol < Rabs (f b0) /\ r_tol < Rabs (f b1))) /\
+  (Rabs (f b1) <= r_tol -> x = Some b1 /\ it = 0) /\
+  (Rabs (f b0) <= r_tol -> r_tol < Rabs (f b1) -> x = Some b0 /\ it = 0) /\
+  (f b0 * f b1 < 0 -> r_tol < Rabs (f b0) -> r_tol < Rabs (f b1) -> Rabs (f (clipR x0 b0 b1)) <= r_tol ->
+     x = Some (clipR x0 b0 b1) /\ it = 0) /\
   (w = IterCap -> INR n <= it) /\
+  (0 <= r_tol -> w <> ZeroOverZero) /\
   (forall v, x = Some v -> F = f v).
 Proof. exact result_contract. Qed.
+Theorem C17_sign_test_is_product_test : forall a b : R,
+  Rltb (@nmul R NumR (nsign a) (nsign b)) (@nzero R NumR) = Rltb (a * b) 0.
+Proof. exact sign_test_R. Qed.
 Theorem C17_converged_reason : forall (f df : R -> R) x_tol r_tol n x0 b0 b1 v it F dx,
   rtsafe f df x0 b0 b1 n x_tol r_tol = Res (Some v) true it F dx Converged ->
-  (it = 0 /\ (v = b0 \/ v = b1) /\ f v = 0)
+  (it = 0 /\ (v = b0 \/ v = b1 \/ v = clipR x0 b0 b1) /\ Rabs (f v) <= r_tol)
   \/ (exists p, iterate_of f df x_tol r_tol n x0 b0 b1 p /\ c_conv p = false /\ c_i p < INR n /\ ~ zoz p /\ it = c_i p + 1 /\
                 v = c_root (body (fdf_of f df) x_tol r_tol p) /\
-                (Rabs dx < x_tol \/ Rabs F < r_tol \/ v = c_root p \/ v = c_xl p)).
+                (Rabs dx < x_tol \/ Rabs F <= r_tol \/ v = c_root p \/ v = c_xl p)).
 Proof. exact converged_reason. Qed.
 
-(* with x_tol <= 0 (the way the J2 update calls the solver) a bracketed converged run ends on |f| < r_tol or an exact root *)
-Theorem C17_converged_small_residual : forall (f df : R -> R) x_tol r_tol n x0 b0 b1 v it F dx, x_tol <= 0 -> f b0 * f b1 < 0 ->
-  rtsafe f df x0 b0 b1 n x_tol r_tol = Res (Some v) true it F dx Converged -> Rabs (f v) < r_tol \/ f v = 0.
+(* with x_tol <= 0 (the way the J2 update calls the solver) and 0 <= r_tol a bracketed converged run ends on |f| <= r_tol *)
+Theorem C17_converged_small_residual : forall (f df : R -> R) x_tol r_tol n x0 b0 b1 v it F dx, x_tol <= 0 -> 0 <= r_tol -> f b0 * f b1 < 0 ->
+  rtsafe f df x0 b0 b1 n x_tol r_tol = Res (Some v) true it F dx Converged -> Rabs (f v) <= r_tol.
 Proof. exact converged_small_residual. Qed.
 
 (* NOT PROVED (false of the faithful model): "f continuous with a sign change => the result is not NaN and meets the tolerance".
-   Refuted twice in exact arithmetic (the generic model run over reduced rationals), default settings, f = x^3 on [-1,1]:
-   (1) guess 0.3: Newton converges linearly at a triple root, the safeguard interleaves bisections, 50 iterations do not reach
-       |dx| < 1e-13 -> NaN (finding F7; same mechanism as width * 2^-50 > x_tol for steep power laws);
-   (2) guess exactly at the root: F = 0 and DF = 0, the Newton branch is selected and computes 0/0 -> NaN (finding F7b). *)
+   Refuted in exact arithmetic (the generic model run over reduced rationals), default settings, f = x^3 on [-1,1], guess 0.3:
+   Newton converges linearly at a triple root, the safeguard interleaves bisections, 50 iterations do not reach |dx| < 1e-13
+   -> NaN (finding F7, open by design; same mechanism as width * 2^-50 > x_tol for steep power laws). *)
 Theorem C17_cap_refuted : exists (cs dcs : list Q) (x0 b0 b1 : Q),
   Qlt (@poly Q NumQr cs b0 * @poly Q NumQr cs b1)%Q 0%Q /\
   is_nan_by IterCap (@rtsafe Q NumQr (@poly Q NumQr cs) (@poly Q NumQr dcs) x0 b0 b1 50 (1 # 10000000000000)%Q 0%Q) = true.
 Proof. exists cubeQ, dcubeQ, (3 # 10)%Q, (-1)%Q, 1%Q. exact cap_witness. Qed.
-Theorem C17_zero_slope_root_refuted : exists (cs dcs : list Q) (x0 b0 b1 : Q),
-  Qlt (@poly Q NumQr cs b0 * @poly Q NumQr cs b1)%Q 0%Q /\
-  is_nan_by ZeroOverZero (@rtsafe Q NumQr (@poly Q NumQr cs) (@poly Q NumQr dcs) x0 b0 b1 50 (1 # 10000000000000)%Q 0%Q) = true.
-Proof. exists cubeQ, dcubeQ, 0%Q, (-1)%Q, 1%Q. exact zero_over_zero_witness. Qed.
+(* formerly refuted (finding F7b, fixed by 8aadfbe): a guess exactly at a root with zero slope (F = 0, DF = 0) used to select the
+   Newton branch and compute 0/0.  Now positive: an iterate with F = 0 ends the iteration converged (0 <= r_tol), and the old
+   witness x^3 on [-1,1] from x0 = 0 returns 0 with zero iterations *)
+Theorem C17_zero_slope_root_refuted : forall (f df : R -> R) x_tol r_tol n x0 b0 b1 x cv it F dx w, 0 <= r_tol ->
+  rtsafe f df x0 b0 b1 n x_tol r_tol = Res x cv it F dx w -> w <> ZeroOverZero.
+Proof. exact no_zero_over_zero. Qed.
+Theorem C17_zero_slope_root_witness_converges :
+  converges_at 0%Q (@rtsafe Q NumQr (@poly Q NumQr cubeQ) (@poly Q NumQr dcubeQ) 0%Q (-1)%Q 1%Q 50 (1 # 10000000000000)%Q 0%Q) = true.
+Proof. exact zero_slope_root_witness. Qed.
 (* positive counterpart: a bisection step halves the bracket and |dx|, so in the bisection regime convergence by the cap needs
    width * 2^-max_iters < x_tol *)
 Theorem C17_bisection_halves : forall (f df : R -> R) x_tol r_tol lo hi (c : @carry R), Inv f df lo hi c -> bisect_chosen c ->
